@@ -101,6 +101,12 @@ QByteArray SocketPrivate::statusReason(int statusCode) const
 
 void SocketPrivate::onReadyRead()
 {
+    // Discard anything received after the request has been read
+    if (readState == ReadFinished) {
+        socket->readAll();
+        return;
+    }
+
     // Append all of the new data to the read buffer
     readBuffer.append(socket->readAll());
 
@@ -181,16 +187,22 @@ bool SocketPrivate::readHeaders()
 
 void SocketPrivate::readData()
 {
+    // Check to see if the specified amount of data has been read from the
+    // socket, if so, drop anything beyond it
+    bool finished = requestDataTotal != -1 &&
+            requestDataRead + readBuffer.size() >= requestDataTotal;
+    if (finished) {
+        readBuffer.truncate(qMax(requestDataTotal - requestDataRead, Q_INT64_C(0)));
+        readState = ReadFinished;
+    }
+
     // Emit the readyRead() signal if any data is available in the buffer
     if (readBuffer.size()) {
         Q_EMIT q->readyRead();
     }
 
-    // Check to see if the specified amount of data has been read from the
-    // socket, if so, emit the readChannelFinished() signal
-    if (requestDataTotal != -1 &&
-            requestDataRead + readBuffer.size() >= requestDataTotal) {
-        readState = ReadFinished;
+    // Emit the readChannelFinished() signal once everything has arrived
+    if (finished) {
         Q_EMIT q->readChannelFinished();
     }
 }
